@@ -181,6 +181,9 @@ pub struct C11Mon {
     pub stale_pending: bool,
     /// the station's last transmission was a request that expects a reply: it is reading
     pub awaiting_reply: bool,
+    /// senders of token offers that were delivered while the station was not reading: the station will
+    /// count them when it reads next (after its next request or pass)
+    pub stale_offers: Vec<u8>,
     /// the last few token passes of the peer (sa, da): a witnessed pass that skips X legitimately removes X
     /// from the station's ring view
     pub recent_peer_tokens: Vec<(u8, u8)>,
@@ -229,6 +232,8 @@ pub struct C12RMon {
     /// not repeating its own pass): what "a rotation" is is undefined until two clean identical rotations
     /// have been seen again; the 'ready' judgement is suspended meanwhile
     pub suspended: bool,
+    /// the witnessed passes with valid addresses, re-tries of the same sender collapsed into its last pass
+    pub passes: Vec<(u8, u8)>,
 }
 
 impl W2State {
@@ -473,6 +478,7 @@ impl W2State {
                         if let Some((lsa, lda)) = self.c12r.last_token {
                             if *sa != lda && *sa != lsa && *sa <= 125 && *da <= 125 {
                                 self.c12r.suspended = true;
+                                self.c12r.passes.clear();
                                 self.c12r.prev_rotation = None;
                                 self.c12r.cur_rotation.clear();
                                 self.c12r.identical = 0;
@@ -480,6 +486,28 @@ impl W2State {
                             }
                         }
                         self.c12r.last_token = Some((*sa, *da));
+                        // "two identical rotations" does not depend on where a rotation is said to begin: the
+                        // last 2k passes are two identical closed chains of k passes, for some k
+                        if *da <= 125 && *sa <= 125 {
+                            if is_retry {
+                                self.c12r.passes.pop();
+                            }
+                            self.c12r.passes.push((*sa, *da));
+                            if self.c12r.passes.len() > 24 {
+                                self.c12r.passes.remove(0);
+                            }
+                            let p = &self.c12r.passes;
+                            let n = p.len();
+                            for k in 1..=n / 2 {
+                                let a = &p[n - 2 * k..n - k];
+                                let b = &p[n - k..];
+                                let chain = b.windows(2).all(|w| w[0].1 == w[1].0) && b[k - 1].1 == b[0].0;
+                                if a == b && chain {
+                                    self.c12r.ever_identical = true;
+                                    self.c12r.suspended = false;
+                                }
+                            }
+                        }
                         if *da <= 125 && *sa <= 125 && !is_retry {
                             self.c12r.cur_rotation.push((*sa, *da));
                             if *da <= *sa {
@@ -668,11 +696,27 @@ impl W2State {
                     }
                 }
             }
-            if self.c11.holder && in_ring && !self.c11.awaiting_reply {
+            let not_reading = self.c11.holder && in_ring && !self.c11.awaiting_reply;
+            if not_reading {
                 self.c11.stale_pending = true;
             }
             self.c11.awaiting_reply = false;
             if let rc::RFrame::Token { da, sa } = f {
+                // the registered predecessor at the time the station will PROCESS this token: the station may
+                // not have processed the last few witnessed passes yet (it does not read while it holds the
+                // token or while a status reply of its own is pending), so every ring view that results from
+                // applying the last k of them is a candidate
+                let mut ps_candidates: Vec<u8> = vec![ps];
+                {
+                    let toks = self.c11.recent_peer_tokens.clone();
+                    for k in 1..=toks.len() {
+                        let mut r = ring.clone();
+                        for (xs, xd) in &toks[toks.len() - k..] {
+                            r.witness_token_pass(*xs, *xd);
+                        }
+                        ps_candidates.push(r.previous_station());
+                    }
+                }
                 self.c11.recent_peer_tokens.push((*sa, *da));
                 if self.c11.recent_peer_tokens.len() > 4 {
                     self.c11.recent_peer_tokens.remove(0);
@@ -684,7 +728,10 @@ impl W2State {
                         // second token on the bus
                         self.c11.extra_offer = true;
                     }
-                    if *sa == ps {
+                    if not_reading {
+                        // counted when the station reads it
+                        self.c11.stale_offers.push(*sa);
+                    } else if ps_candidates.contains(sa) {
                         self.c11.holder = true;
                         self.c11.holder_since = end;
                     } else {
@@ -709,10 +756,18 @@ impl W2State {
                     }
                 }
             }
-        } else if let Some((_, n, _, _heard)) = &mut self.c11.pass {
-            // undecodable bytes: the statement does not say whether they count as "heard"; from now on
-            // neither a repeat nor its absence is judged for this pass (n = 255 marks that)
-            *n = 255;
+        } else {
+            if self.c11.holder && in_ring && !self.c11.awaiting_reply {
+                // undecodable bytes delivered while the station is not reading: they are still in its receive
+                // buffer after its next pass
+                self.c11.stale_pending = true;
+            }
+            self.c11.awaiting_reply = false;
+            if let Some((_, n, _, _heard)) = &mut self.c11.pass {
+                // undecodable bytes: the statement does not say whether they count as "heard"; from now on
+                // neither a repeat nor its absence is judged for this pass (n = 255 marks that)
+                *n = 255;
+            }
         }
         if end > self.c11.last_activity_end {
             self.c11.prev_activity_end = self.c11.last_activity_end;
@@ -729,6 +784,9 @@ impl W2State {
             _ => return,
         };
         self.c11_expire_holder(tx.start);
+        if self.verbose && std::env::var("PBMC_DEBUG_C11").is_ok() {
+            println!("      [c11 before {}: {:?}]", frame.short(), self.c11);
+        }
         self.c11.awaiting_reply = frame.is_request() && frame.req_expects_reply();
         if self.c11.awaiting_reply {
             // whatever is in the receive buffer is consumed as (or instead of) the reply
@@ -756,6 +814,9 @@ impl W2State {
                     self.c11.pass = None;
                 }
                 justified = true;
+                // it holds that token now
+                self.c11.holder = true;
+                self.c11.holder_since = tx.end;
             }
             if !justified {
                 if let (Some(da), Some((x, n, pass_end, heard))) = (own_token, self.c11.pass.clone()) {
@@ -822,6 +883,19 @@ impl W2State {
             if was_holder {
                 ctx().witness("c11_initiated_as_holder");
                 self.c11.offers.clear();
+            }
+            if self.c11.awaiting_reply || matches!(own_token, Some(da) if da != ts) {
+                // the station reads now: offers that were waiting in its receive buffer are counted
+                let stale: Vec<u8> = self.c11.stale_offers.drain(..).collect();
+                for sa in stale {
+                    match self.c11.offers.iter_mut().find(|o| o.0 == sa) {
+                        Some(o) => o.1 = o.1.saturating_add(1).min(3),
+                        None => {
+                            self.c11.offers.push((sa, 1));
+                            self.c11.offers.sort();
+                        }
+                    }
+                }
             }
             match own_token {
                 Some(da) if da != ts => {
